@@ -7,6 +7,9 @@ compared byte-wise: every trial record, status, counters, x, y, d.
 """
 import itertools
 
+import random
+import zlib
+
 import numpy as np
 
 from .. import boot  # noqa: F401
@@ -88,6 +91,9 @@ def one_run(case, obs):
         fault = mon.Fault(pred=lambda x, x0r=x0r, rad=rad: float(np.linalg.norm(x - x0r)) > rad,
                           components=case.get("region_components", ["obj", "obj_grad", "cons", "cons_jac"]))
     p = work.prepare(dict(case, cfg=cfgd), fault=fault, record_sites=False, keep_args=False)
+    # process-global random state a user's callbacks may draw from (seeded by the "user" before the solve)
+    np.random.seed(20261002)
+    random.seed(20261002)
     if obs:
         p.params.display_interval = obs["interval"]
         clock = mon.VirtualClock(display_bits=obs["bits"], display_interval=obs["interval"])
@@ -100,6 +106,8 @@ def one_run(case, obs):
         out.log_chars = 0
     out.clock = clock
     out.faults_fired = len(fault.fired) if fault else 0
+    st = np.random.get_state()
+    out.rng_state = (zlib.crc32(st[1].tobytes()), int(st[2]), zlib.crc32(repr(random.getstate()).encode()))
     return p, out
 
 
@@ -149,6 +157,12 @@ def run_case(case):
             else:
                 bad("bare-run-failed", "the bare run raised %s but the observed run returned a result" % type(bare.exc).__name__)
             continue
+        bump("global_random_states_compared")
+        if out.rng_state != bare.rng_state:
+            bad("global-random-state", "the process-global random generators (numpy.random / random) are in a different "
+                "state after the observed run than after the bare run: observation consumed or re-seeded randomness that "
+                "callbacks drawing from them depend on")
+            continue
         T = out.trace.trials
         if len(T) != len(T0) or not all(work.same_trial(a, b) for a, b in zip(T, T0)):
             i = next((i for i, (a, b) in enumerate(zip(T, T0)) if not work.same_trial(a, b)), min(len(T), len(T0)))
@@ -183,7 +197,9 @@ def finalize(agg, tier):
                 "distinct by construction",
         "floors": {"observed_runs": 800, "displayed_rows": 2000, "log_DEBUG": 200, "rcond_runs": 200, "path_runs": 200,
                    "callback_invocations": 2000, "exhaustive_display_patterns": 100, "log_chars": 100000,
-                   "observed_runs_restricted_domain": 100, "non_finite_evaluations_in_observed_runs": 200},
-        "assumptions": ["the display schedule is the only wall-clock dependence of a solve; it is scripted through the "
+                   "observed_runs_restricted_domain": 100, "non_finite_evaluations_in_observed_runs": 200,
+                   "global_random_states_compared": 800},
+        "assumptions": ["state that lives outside the solver but takes part in a user's computation is compared too: the process-global numpy.random / random generators are seeded before every run and must be in the same state after an observed run as after the bare run",
+                        "the display schedule is the only wall-clock dependence of a solve; it is scripted through the "
                         "virtual clock (pygradflow.timer.time)"],
     }
